@@ -6,6 +6,7 @@ CONSTANTS
   DevFlushSkipsLast = FALSE
   DevResizeKeepsOldGdt = FALSE
   DevResizeMovesSoleBackup = FALSE
+  DevBackupSearchIgnoresSs2 = TRUE
 INVARIANT TypeOK
 INVARIANT InvCurrent
 INVARIANT InvBackupSet
